@@ -18,6 +18,7 @@ from checks.ctxcomp import Mod, Feat, Sub, History, Snap
 
 LEAN_TARGETS = ["LyModel.Props.C19"]
 AUDIT = "Audit/C19.lean"
+GENERATED = ["CtxFacts"]
 ASSUMPTIONS = [
     "see C09: module contents abstract, imports through the import callback, internal modules left out of the model and of the compared snapshots "
     "(ly_ctx_get_modules_hash skips them as well)",
